@@ -187,6 +187,29 @@ pub fn vector_stream() -> Vec<(String, String)> {
             "float pm(precise float a, float b, out precise float c)\n{\n    precise float r = a * b;\n    c = r + a;\n    return r - b;\n}\n",
         ],
     );
+    // one-component vectors: scalar <-> vector(1) <-> vector(n) dimension casts (typer/src/casting.rs DimensionCast)
+    add(
+        "vec1",
+        &["float1 one(float1 a, int1 b);\n", "int f1(int x, int y)\n{\n    float1 a = x;\n    float s = a;\n    float3 w = a;\n    int1 i = y;\n    int2 j = i;\n    float1 c = one(s, y) + one(a, i);\n    a.x += c;\n    return (int)s + (int)w.z + j.y + (int)a + (int)c.x;\n}\n", "float1 one(float1 a, int1 b)\n{\n    return a * 2 + b;\n}\n"],
+    );
+    // an unsuffixed float literal converted to int / uint / bool is folded by ImplicitConversion::apply
+    add(
+        "literal-fold",
+        &["int f1(int x, int y)\n{\n    int i = 2.5;\n    uint u = 3.75;\n    bool b = 0.25;\n    int n = -7.9;\n    bool z = 0.0;\n    return i + (int)u * 10 + (b ? 100 : 0) + n * 1000 + (z ? 5 : 6) + x;\n}\n"],
+    );
+    // overload resolution with an enum argument (EnumToNumeric rank) and a literal (promotion ranks); the exporter calls the chosen overload by its own name
+    add(
+        "overloads-enum-arg",
+        &[
+            "enum E\n{\n    EA,\n    EB = 5\n};\n",
+            "int g(int a);\nint g(uint a);\nfloat g(float a);\nint g(E a);\n",
+            "int f1(int x, int y)\n{\n    E e = x > 0 ? EB : EA;\n    return g(e) + g(EB) * 3 + g(x) + g((uint)y) + (int)g(1.5f) + (int)g(2.5);\n}\n",
+            "int g(E a)\n{\n    return (int)a + 1000;\n}\n",
+            "float g(float a)\n{\n    return a * 2;\n}\n",
+            "int g(uint a)\n{\n    return (int)(a >> 1);\n}\n",
+            "int g(int a)\n{\n    return a + 1;\n}\n",
+        ],
+    );
     // four-column matrices: the component letter of the fourth column
     add(
         "matrix-four-columns",
